@@ -1364,7 +1364,7 @@ func containsYieldStmt(list []*Stmt) bool {
 			case "yield", "yieldraw", "yieldfrom":
 				found = true
 			case "raw", "rawsimple":
-				if containsAny(s.Raw, "$YIELD", "$YFROM") {
+				if containsAny(s.Raw, "$YIELD", "$YFROM") { // also matches $YIELDT / $YFROMT
 					found = true
 				}
 			case "closure", "closure-assign":
